@@ -212,7 +212,7 @@ func (w *World) storeOptions() (moss.StoreOptions, moss.StorePersistOptions) {
 
 // NewWorld creates a fresh instance and brings it to its initial quiescent state.
 func NewWorld(cfg Config, alpha []*BatchSpec) *World {
-	w := &World{cfg: cfg, alpha: alpha, ll: map[string]string{}, mains: map[int]bool{}, probes: probeKeys}
+	w := &World{cfg: cfg, alpha: alpha, ll: map[string]string{}, mains: map[int]bool{}, probes: probesFor(alpha)}
 	w.models = []*Node{NewNode()}
 	w.s = newSched(cfg)
 	if cfg.VFS {
@@ -854,4 +854,37 @@ func (w *World) reopen() {
 	if len(w.specs) > p {
 		w.specs = w.specs[:p]
 	}
+}
+
+// probesFor returns the keys looked up with Get in every dump: the fixed probes plus every key the alphabet writes.
+func probesFor(alpha []*BatchSpec) []string {
+	out := append([]string{}, probeKeys...)
+	seen := map[string]bool{}
+	for _, k := range out {
+		seen[k] = true
+	}
+	var walk func(b *BatchSpec)
+	walk = func(b *BatchSpec) {
+		if b == nil {
+			return
+		}
+		for _, o := range b.Ops {
+			if !seen[o.Key] {
+				seen[o.Key] = true
+				out = append(out, o.Key)
+			}
+		}
+		names := make([]string, 0, len(b.Kids))
+		for n := range b.Kids {
+			names = append(names, n)
+		}
+		sort.Strings(names)
+		for _, n := range names {
+			walk(b.Kids[n])
+		}
+	}
+	for _, b := range alpha {
+		walk(b)
+	}
+	return out
 }
